@@ -411,13 +411,8 @@ def lookup_else(chk, repo):
 def fixed(chk, repo):
     d = repo.cls(H + "HashGlobalVarDesc")
     gt, st = d.methods.get("__get__"), d.methods.get("__set__")
-    gi = [s for s in walk_no_nested(gt) if isinstance(s, ast.If) and match(
-        "self.fmt == 'x'", s.test) is not None] if gt else []
-    ok = len(gi) == 1 and bool(find(
-        "unpack('q', data)[0] / Expression.FIXED_BASE", gi[0].body))
-    chk.ob("R09.6", d.qualname + ".__get__", "x variables are read as the "
-           "8-byte raw value divided by FIXED_BASE", ok, gt or d.node,
-           "struct reads 'x' as a pad byte, so the raw q is used")
+    from .c02 import hash_reads
+    hash_reads(chk, repo, "R09.6")
     si = [s for s in walk_no_nested(st) if isinstance(s, ast.If) and match(
         "self.fmt == 'x'", s.test) is not None] if st else []
     ok = len(si) == 1 and bool(find(
